@@ -338,6 +338,20 @@ def run(ctx: Context) -> None:
             if conds:
                 problems.append(f"re-routing is conditional on `{ast.unparse(conds[0].test)[:50]}`")
         ctx.add("R4", f"{f.qualname}::requeues-every-popped-message", not problems, f.loc(), "" if not problems else f"{p}: " + "; ".join(problems) + ": messages popped by the page are not all routed back - the page deletes queue entries")
+        # nothing that can fail stands between the last pop and the first re-route (otherwise an error there - e.g. while
+        # rendering the page - leaves the popped messages out of the queue for good)
+        top = f.node.body
+        def top_of(n):
+            cur = n
+            while pm_.get(id(cur)) is not None and pm_.get(id(cur)) is not f.node:
+                cur = pm_.get(id(cur))
+            return cur
+        i_pop = max(top.index(top_of(c)) for c in pops if top_of(c) in top)
+        i_push = min(top.index(top_of(c)) for c in pushes if top_of(c) in top)
+        between = top[i_pop + 1:i_push] if i_pop < i_push else []
+        risky = [st for st in between if any(isinstance(x, ast.Call) for x in ast.walk(st))]
+        okb = i_pop < i_push and not risky
+        ctx.add("R4", f"{f.qualname}::nothing-fallible-between-pop-and-requeue", okb, f.loc(risky[0]) if risky else f.loc(), "" if okb else (f"`{ast.unparse(risky[0])[:60]}` runs after the messages were popped and before they are routed back: if it raises, the popped messages are lost" if risky else "the re-routing does not follow the pops"))
     ctx.floor("R4", "handlers that pop and re-route", n4, 1)
     # side-effect property reads in handler code (typed through the call graph: property edges)
     ctx.exhaustive = True
